@@ -22,6 +22,8 @@ import (
 //
 //	kill=<k>        SIGKILL the process at the syscall-enter stop of call k (it never executes)
 //	err=<k>:<errno> skip call k and make it return -errno
+//	errkill=<e>:<errno>:<k>  both: fail call e, then kill at call k > e (second order:
+//	                a crash inside the retry that follows a failed first attempt)
 //
 // It writes a log in strace's text format (only the calls of its table), so the same
 // parser and oracles are used for both mechanisms.
@@ -73,6 +75,7 @@ type stepper struct {
 	roots   []string
 	mode    string // "", kill, err
 	target  int
+	killAt  int // errkill: index of the call to kill at (-1 = none)
 	errno   syscall.Errno
 	mainPid int
 	window  bool
@@ -201,11 +204,24 @@ func stepperMain(args []string) {
 		fmt.Fprintln(os.Stderr, "stepper:", err)
 		os.Exit(97)
 	}
-	s := &stepper{out: bufio.NewWriter(fo), roots: strings.Split(args[1], ":"), pending: map[int]*stepCall{}, target: -1}
+	s := &stepper{out: bufio.NewWriter(fo), roots: strings.Split(args[1], ":"), pending: map[int]*stepCall{}, target: -1, killAt: -1}
 	switch m := args[2]; {
 	case strings.HasPrefix(m, "kill="):
 		s.mode = "kill"
 		s.target, _ = strconv.Atoi(m[5:])
+	case strings.HasPrefix(m, "errkill="):
+		s.mode = "err"
+		p := strings.SplitN(m[8:], ":", 3)
+		s.target, _ = strconv.Atoi(p[0])
+		s.errno = syscall.EIO
+		if len(p) > 1 {
+			if e, ok := errnoByName[p[1]]; ok {
+				s.errno = e
+			}
+		}
+		if len(p) > 2 {
+			s.killAt, _ = strconv.Atoi(p[2])
+		}
 	case strings.HasPrefix(m, "err="):
 		s.mode = "err"
 		p := strings.SplitN(m[4:], ":", 2)
@@ -326,10 +342,11 @@ func (s *stepper) syscallStop(tid int) {
 			}
 		}
 		ev := &sysEvent{Name: d.name, Args: line}
-		if s.window && !isMarker && !s.done && ev.mutating() && ev.touches(s.roots) {
+		if s.window && !isMarker && (!s.done || s.killAt >= 0) && ev.mutating() && ev.touches(s.roots) {
 			idx := s.count
 			s.count++
-			if idx == s.target && s.mode == "kill" {
+			if (idx == s.target && s.mode == "kill") || (idx == s.killAt && s.done) {
+				s.killAt = -1
 				s.done = true
 				fmt.Fprintf(s.out, "%d %s(%s <unfinished ...>\n", tid, d.name, line)
 				_ = s.out.Flush()
@@ -337,7 +354,7 @@ func (s *stepper) syscallStop(tid int) {
 				delete(s.pending, tid)
 				return
 			}
-			if idx == s.target && s.mode == "err" {
+			if idx == s.target && s.mode == "err" && !s.done {
 				s.done = true
 				call.inject = true
 				var regs syscall.PtraceRegs
